@@ -44,7 +44,7 @@ type shapeGen struct {
 	idx        int
 	nextID     int
 	sh         *Shape
-	nestedBias bool // C04: more named nested struct fields
+	nestedBias bool        // C04: more named nested struct fields
 	done       [][2]string // struct types already complete (candidates for reuse) with the kind of their first use
 	reuses     int
 }
